@@ -38,6 +38,9 @@ def dec(fr: F, digits=12) -> str:
     return s
 
 
+SCI_NOTATION = False      # set per run from the profile ('sci_notation'); off means no extra draw from the PRNG
+
+
 def fmt_quantity(rng, value: F, base: str, digits=None, prefixes=None) -> str:
     """A quantity string denoting (approximately) `value` base units, with a seeded prefix choice."""
     if base == 'U':
@@ -50,7 +53,14 @@ def fmt_quantity(rng, value: F, base: str, digits=None, prefixes=None) -> str:
     p = rng.choice(good or table)
     if rng.random() < 0.03 and p == 'u':
         p = 'µ'
-    return f"{dec(value / M.PREFIXES[p], digits or 8)} {p}{base}"
+    number = dec(value / M.PREFIXES[p], digits or 8)
+    if SCI_NOTATION and value != 0 and rng.random() < 0.04:
+        # the same number as a spreadsheet or an instrument export spells it: 2.5E+2, 1e-04 (whatever float() reads is a number)
+        d = Decimal(number)
+        number = rng.choice(['{:E}', '{:e}']).format(d)
+        if rng.random() < 0.5:
+            number = number.replace('E+', 'E').replace('e+', 'e')
+    return f"{number} {p}{base}"
 
 
 def round_sig(rng, x: float, round_numbers: bool) -> F:
@@ -202,6 +212,8 @@ def rect_spec(rng, nr, nc, r0, r1, c0, c1):
 
 class GenA:
     def __init__(self, rng, bench, profile):
+        global SCI_NOTATION
+        SCI_NOTATION = bool(profile.get('sci_notation', False))
         self.rng = rng
         self.b = bench
         self.W = bench.world
@@ -567,6 +579,69 @@ class GenA:
         self.pending.append({'op': 'transfer', 'src': [name, -1], 'dst': [dst, -1], 'q': f"{dec(total, 12)} {p}{cls}", 'obs': rng.randrange(1 << 30)})
         self.b.stats['probe:fresh_vessel_drained_exactly'] += 1
         return {'op': 'new_container', 'name': name, 'cap': None, 'contents': contents, 'obs': rng.randrange(1 << 30)}
+
+    def gen_series(self):
+        """A concentration series at constant volume: along one row, well i gets a share f_i of a volume V from one vessel and
+        the rest from another, so every well holds the same substances at the same volume in different proportions; then the
+        row is filled to a common amount by moles or by mass (each well needs another top-up)."""
+        rng = self.rng
+        mdl = self.W.model
+        plates = [n for n in self.names('plate')]
+        conts = []
+        for n in self.names('container'):
+            m, _ = self.latest_model(n, -1)
+            try:
+                if mdl.volume(m) > 0 and mdl.total(m, 'mol') > 0:
+                    conts.append((n, m))
+            except Exception:
+                pass
+        if not plates or len(conts) < 2:
+            return None
+        pn = rng.choice(plates)
+        mp, _ = self.latest_model(pn, -1)
+        nr, nc = mp.shape
+        if nc < 2:
+            return None
+        r = rng.randrange(nr)
+        cols = [c for c in range(nc) if not any(a > 0 for a in mp.well((r, c)).contents.values())][:4]
+        if len(cols) < 2 or cols != list(range(cols[0], cols[0] + len(cols))):
+            return None
+        (xn, xm), (yn, ym) = rng.sample(conts, 2)
+        cap = mp.well((r, cols[0])).cap
+        n = len(cols)
+        vmax = min(mdl.volume(xm), mdl.volume(ym)) / (2 * n)
+        if cap is not None:
+            vmax = min(vmax, cap * F(3, 10))
+        if vmax <= 0:
+            return None
+        V = round_sig(rng, float(vmax) * rng.uniform(0.3, 0.9), True)
+        if V <= 0 or V > vmax:
+            return None
+        fr = [F(2, 10), F(4, 10), F(6, 10), F(8, 10)][:n]
+        rng.shuffle(fr)
+        evs = []
+        for c, f in zip(cols, fr):
+            for src, part in ((xn, f * V), (yn, (1 - f) * V)):
+                evs.append({'op': 'transfer', 'src': [src, -1], 'dst': [pn, -1, {'k': 'cell', 'r': r + 1, 'c': c + 1, 'form': 'tup'}],
+                            'q': fmt_quantity(rng, part, 'L', digits=12), 'obs': rng.randrange(1 << 30)})
+        unit = rng.choice(['mol', 'mol', 'g'])
+        cx, cy = mdl.total(xm, unit) / mdl.volume(xm), mdl.total(ym, unit) / mdl.volume(ym)
+        tots = [f * V * cx + (1 - f) * V * cy for f in fr]
+        liquids = self.subs_of(M.LIQUID)
+        if not liquids:
+            return None
+        solvent = rng.choice(liquids)
+        ms = self.W.msubs[solvent]
+        target = max(tots) * F(repr(round(rng.uniform(1.05, 1.6), 2)))
+        added_vol = (target - min(tots)) / ms.per_amount(unit) * ms.per_amount('L')
+        if cap is not None and V + added_vol > cap * F(9, 10):
+            return None
+        sel = {'k': 'rect', 'r': r + 1, 'c': [cols[0] + 1, cols[-1] + 1, None], 'rl': False, 'cl': False}
+        evs.append({'op': 'fill_to', 'tgt': [pn, -1, sel], 'solvent': solvent, 'q': fmt_quantity(rng, target, unit, digits=6),
+                    'obs': rng.randrange(1 << 30)})
+        self.pending.extend(evs[1:])
+        self.b.stats['probe:constant_volume_series'] += 1
+        return evs[0]
 
     def gen_new_plate(self):
         if self.n_plate >= 3:
